@@ -7,6 +7,7 @@ import (
 	"time"
 
 	"qeepverif/internal/bind"
+	"qeepverif/internal/drive"
 	"qeepverif/internal/run"
 
 	"github.com/sahandsafizadeh/qeep/component/initializers"
@@ -513,7 +514,7 @@ func judge(c *c09Case) (verdict string) {
 
 func init() {
 	register("C09", "exploration", func(c *run.Ctx) error {
-		c.Rule = "TLC enumerates calls of every public entry point (constructors incl. TensorOf with rectangular and ragged nested data of depth 0..4, At, every Tensor method with integer / shape / range arguments, all binary methods with mismatched and nil operands, Concat, BackPropagate, NewFC and Forward of every layer / activation, the three losses, Accuracy, SGD.Update in five states, every initializer's constructor and Init) with arguments from [-2,6], ranks 0..5, nil values (full product up to length 2, one position varied above) and emits the outcome defined by spec/Total.tla: rejected, or accepted with a shape; the harness performs each call under recover with a 20 s watchdog and requires: no panic, no hang, an error and no result exactly when rejected, otherwise a readable result of the specified shape; distinct = distinct calls; non-trivial = every call (each is a different argument tuple)"
+		c.Rule = "TLC enumerates calls of every public entry point (constructors incl. TensorOf with rectangular and ragged nested data of depth 0..4, At, every Tensor method with integer / shape / range arguments, all binary methods with mismatched and nil operands, Concat, BackPropagate, NewFC and Forward of every layer / activation, the three losses, Accuracy, SGD.Update in five states, every initializer's constructor and Init) with arguments from [-2,6], ranks 0..5, nil values (full product up to length 2, one position varied above) and emits the outcome defined by spec/Total.tla: rejected, or accepted with a shape; the harness performs each call under recover with a 20 s watchdog (plus 400 (20000) seeded random HISTORIES of calls that ignore the provisos of C08 - re-back-propagating used graphs, resetting tensors inside live graphs - which only have to return without panicking) and requires: no panic, no hang, an error and no result exactly when rejected, otherwise a readable result of the specified shape; distinct = distinct calls; non-trivial = every call (each is a different argument tuple)"
 		c.Assumptions = []string{"the preconditions in spec/TensorOps.tla (Pre), spec/Components.tla (CompPre) and spec/Total.tla are transcribed from the statement and the validators' documented messages", "element values are irrelevant for this property (iota-like data)"}
 		parts := 4
 		if c.Thorough {
@@ -580,13 +581,43 @@ func init() {
 			return run.Brokenf("no calls generated")
 		}
 		c.AddExtra("calls_generated_by_tlc", n)
+		// histories: no sequence of public calls may panic either - including sequences outside the provisos of C08
+		// (back-propagating a used graph again, resetting tensors in the middle of a live graph)
+		nh := 400
+		if c.Thorough {
+			nh = 20000
+		}
+		for i := 0; i < nh; i++ {
+			seed := c.Seed*1000033 + int64(i)
+			o := drive.Opts{Steps: 50, MaxNodes: 14, Resets: true, MaxBPs: 8, ValueCap: 1e6}
+			if p := drive.RunCrashOnly(seed, o); p != "" {
+				if p2 := drive.RunCrashOnly(seed, o); p2 != "" {
+					c.Violate(fmt.Sprintf("a sequence of public calls panicked (history seed %d): %s", seed, p), map[string]any{"c09_history_seed": seed, "panic": p})
+					break
+				}
+			}
+			c.Count(fmt.Sprintf("history-%d", i), true)
+		}
+		c.AddExtra("proviso_free_histories", nh)
 		return nil
 	})
 	replayers["C09"] = func(path string, w json.RawMessage) int {
 		var rec struct {
-			C09 c09Case `json:"c09"`
+			C09  c09Case `json:"c09"`
+			Seed int64   `json:"c09_history_seed"`
 		}
-		if err := json.Unmarshal(w, &rec); err != nil || rec.C09.Call == nil {
+		if err := json.Unmarshal(w, &rec); err != nil {
+			return 2
+		}
+		if rec.Seed != 0 {
+			if p := drive.RunCrashOnly(rec.Seed, drive.Opts{Steps: 50, MaxNodes: 14, Resets: true, MaxBPs: 8, ValueCap: 1e6}); p != "" {
+				fmt.Printf("VIOLATION property=C09 replay=%s\n  history seed %d panics: %s\n", path, rec.Seed, p)
+				return 1
+			}
+			fmt.Printf("C09: witness %s no longer fails\n", path)
+			return 0
+		}
+		if rec.C09.Call == nil {
 			return 2
 		}
 		if v := judge(&rec.C09); v != "" {
